@@ -513,6 +513,37 @@ pub fn run_eval_bounds(src: &str, cfg: &RunCfg, bounds: Option<Vec<bool>>) -> Ob
     case_end(outcome, w, ticks)
 }
 
+/// `run_eval` for results of any size and depth: the returned value is not turned into a `Val`
+/// (which is a recursive structure); its heap objects are collected with a work list and released, and the
+/// outcome of a successful run is `Value(Masked)`. For inputs whose result is irrelevant to the check (C05 scale inputs).
+pub fn run_eval_shallow(src: &str, budget: u64) -> Obs {
+    note_current(if SMALL_STACK.with(|s| s.get()) { "eval8s" } else { "evals" }, src);
+    case_begin(budget);
+    let r = catch_unwind(AssertUnwindSafe(|| nederlang::eval(src)));
+    let ticks = verif::ticks();
+    let mut w = Walker::new();
+    let outcome = match r {
+        Ok(Ok(o)) => {
+            let mut seen: HashMap<usize, ()> = HashMap::new();
+            let mut work = vec![o];
+            while let Some(x) = work.pop() {
+                if !x.is_heap_allocated() || seen.insert(obj_addr(x), ()).is_some() {
+                    continue;
+                }
+                w.heap_objects.push(x);
+                if verif::heap_is_live(x) == Some(true) && x.tag() == Type::Array {
+                    work.extend(x.as_vec().iter().copied());
+                }
+            }
+            Outcome::Value(Val::Masked)
+        }
+        Ok(Err(Error::TypeError(m))) if m == verif::BUDGET_MSG => Outcome::Budget,
+        Ok(Err(e)) => Outcome::Error(ErrKind::of(&e)),
+        Err(p) => classify_unwind(p),
+    };
+    case_end(outcome, w, ticks)
+}
+
 /// Runs `f` on a thread with a large stack and returns its result
 pub fn with_big_stack<T: Send + 'static>(f: impl FnOnce() -> T + Send + 'static) -> T {
     std::thread::Builder::new()
@@ -621,6 +652,18 @@ pub fn probe(tag: &str, text: &str) {
                 }
                 s.end();
             }
+        }
+        "eval8s" => {
+            let text = text.to_string();
+            let h = std::thread::Builder::new().stack_size(8 << 20).spawn(move || {
+                install_gc_observer();
+                let _ = run_eval_shallow(&text, 200_000_000);
+            });
+            let _ = h.expect("spawn").join();
+        }
+        "evals" => {
+            install_gc_observer();
+            let _ = run_eval_shallow(text, 200_000_000);
         }
         "eval8" => {
             // the platform's default stack for a main thread
